@@ -259,6 +259,23 @@ def confirm_cli(exe, rep):
     return {"eval_up_to": [kind, val], "dbg": m.group(1) if m else None}
 
 
+REACH_MARK = "@@c27-reached-while@@"
+
+
+def while_reached_and_left(exe, src, a, hook):
+    """Does a normal run reach the `while` at byte offset a (statement position) and finish without an error afterwards?
+    Then the loop was left, and its value (Unit) is what eval-up-to must have reported."""
+    sb = src.encode()
+    inst = (sb[:a] + b"println(\"" + REACH_MARK.encode() + b"\")\n" + sb[a:]).decode()
+    if hook:
+        x = oracle.batch(exe, [{"op": "run", "src": inst, "tick_limit": 100000}], timeout=120)[0]
+        outs = x.get("outcomes") or []
+        ok = bool(outs) and all(str(o).startswith("ok") or (isinstance(o, dict) and o.get("kind") == "ok") for o in outs)
+        return ok and REACH_MARK in x.get("stdout", "")
+    rc, out, err = cli_many(exe, [(["run"], inst)])[0]
+    return rc == 0 and REACH_MARK in out and "Error" not in err and "Exception" not in err
+
+
 def examine(ctx, exe, mdl, srcs, label, hook, item_prefix="(block", use_model=True):
     sx = oracle.batch(exe, [{"op": "sexp", "src": s, "positions": True} for s in srcs], timeout=600)
     keep = []      # (src, item_lines, start, end, kind, offset)
@@ -317,6 +334,12 @@ def examine(ctx, exe, mdl, srcs, label, hook, item_prefix="(block", use_model=Tr
                            {"expected": want, "observed": val})
             else:
                 ctx.stat(label + " dbg-not-reached")
+        elif k == "while":
+            # a `while` loop cannot be wrapped in dbg(), but its value is known: a loop evaluates to Unit however it ends
+            ctx.stat(label + " while-target-compared")
+            if kind == "value" and norm(val) != "Unit" and while_reached_and_left(exe, s, a, hook):
+                report("C27:wrong-value:while", "eval-up-to on a `while` loop reports %s, but a loop evaluates to Unit (the run went "
+                       "past the loop)" % val, {"expected": "Unit", "observed": val})
         else:
             ctx.stat(label + " not-wrappable")
         # (b) the model
